@@ -134,6 +134,7 @@ func RunC02(c *Ctx) {
 	operandMatrix(c, func(entry, input string) { CheckC02(c, entry, input) })
 	valueSlotMatrix(c, func(entry, input string) { CheckC02(c, entry, input) })
 	foldAlikeWorkload(c, func(entry, input string) { CheckC02(c, entry, input) })
+	sameNameWorkload(c, func(entry, input string) { CheckC02(c, entry, input) })
 	for i, sf := range qualifiedSpecialForms() {
 		if c.Mine(i) {
 			CheckC02(c, "expr", sf)
